@@ -124,6 +124,9 @@ pub struct Plan {
     /// run index the plan was drawn for (information only)
     #[serde(default)]
     pub run: u64,
+    /// non-empty: the same (undamaged) jars are also offered as `LazyJar`s (entry-level seam), one plan per jar
+    #[serde(default)]
+    pub lazy: Vec<crate::simjar::LazyPlan>,
 }
 
 impl Plan {
@@ -451,13 +454,13 @@ fn mref(r: &duke::tree::method::MethodRefObj) -> MRef {
     (sv(&r.class), sv(&r.name), sv(&r.desc))
 }
 
-fn real_pairs(main: &SimJar) -> anyhow::Result<Vec<(MRef, MRef)>> {
+fn real_pairs(main: &impl dukebox::storage::Jar) -> anyhow::Result<Vec<(MRef, MRef)>> {
     let sm = main.get_specialized_methods()?;
     Ok(sm.bridge_to_specialized.iter().map(|(b, s)| (mref(b), mref(s))).collect())
 }
 
 /// Ok(Ok(set)) | Ok(Err(projection problem)) | Err(the operation failed)
-fn real_add(main: &SimJar, libs: &[SimJar], cal: &QCal, map: &QMap) -> anyhow::Result<Result<MapSet, String>> {
+fn real_add<J: dukebox::storage::Jar>(main: &J, libs: &[J], cal: &QCal, map: &QMap) -> anyhow::Result<Result<MapSet, String>> {
     let out = add_specialized_methods_to_mappings(main, cal, libs, map)?;
     Ok(from_quill(&out).map_err(|e| format!("{e:#}")))
 }
@@ -884,6 +887,7 @@ impl Engine for C15 {
             io: vec![],
             damage: vec![],
             run: _run,
+            lazy: vec![],
         };
         let n = p.njars();
         p.io = vec![IoPlan::plain(); n];
@@ -914,6 +918,19 @@ impl Engine for C15 {
                 let len = build(p.jar(j), &[]).len() as u64;
                 let fault = jar_faults(&mut f, len);
                 p.io[j].faults.push(fault);
+            }
+        }
+        // ---- the entry-level seam
+        let mut z = rng.split("lazy-jar");
+        if z.chance(20) {
+            for j in 0..n {
+                let nent = p.jar(j).classes.len() as u64 + 3;
+                // detection walks the main jar once, the mappings step walks every jar once more
+                let span = 4 * nent * if j == 0 { 2 } else { 1 } + 4;
+                let mut fail_at: Vec<u32> = if j == 0 || z.chance(40) { (0..z.below(3)).map(|_| z.below(span) as u32).collect() } else { vec![] };
+                fail_at.sort();
+                fail_at.dedup();
+                p.lazy.push(crate::simjar::LazyPlan { fail_at, sticky: z.chance(30), io: if z.chance(40) { IoPlan::gen_legal(&mut z) } else { IoPlan::plain() } });
             }
         }
         p
@@ -1175,12 +1192,80 @@ impl Engine for C15 {
                 }
             }
         }
+        // ---------------- the entry-level seam: the same (undamaged) jars behind LazyJars
+        if p.lazy.len() == n {
+            use crate::simjar::{open_entries, LazyJar};
+            let jars: Option<Vec<LazyJar>> = (0..n).map(|j| open_entries(&healthy[j]).ok().map(|e| LazyJar::new(e, &p.lazy[j]))).collect();
+            if let Some(jars) = jars {
+                let pairs = no_panic(|| real_pairs(&jars[0]));
+                let failed_detect = jars[0].failed() > 0;
+                let add = no_panic(|| real_add(&jars[0], &jars[1..], &qcal, &qmap));
+                let failed = jars.iter().any(|j| j.failed() > 0);
+                for j in &jars {
+                    j.report(st);
+                }
+                st.tier(if failed { "T2" } else { "T1" });
+                obs.u64(0x1a2);
+                let lazy_out = RealOut { pairs, add, fuel: false };
+                digest_out(&mut obs, &lazy_out);
+                let t = |f: bool| if f { "T2" } else { "T1" };
+                match (&lazy_out.pairs, &t0_pairs) {
+                    (Err(pm), _) => out.push(Violation::new(t(failed_detect), "panic", format!("detect:{}", panic_path(pm)), pm.clone())),
+                    (Ok(Err(_)), _) if failed_detect => st.probe("lazy.err_after_failed_entry_operation"),
+                    (Ok(Err(e)), Some(_)) => out.push(Violation::new("T1", "schedule-dependence", "lazy.detect.result", format!("fails on a jar that hands out its entries one by one although no entry operation failed: {e:#}"))),
+                    (Ok(Ok(a)), Some(b)) => {
+                        // the data is intact whatever failed in between: an answer must be THE answer
+                        if a != b {
+                            let class = if failed_detect { "reader-ok-with-wrong-data" } else { "schedule-dependence" };
+                            out.push(Violation::new(t(failed_detect), class, "lazy.detect.pairs", format!("{} pairs vs {} for the zip-backed jar (or another order)", a.len(), b.len())));
+                        }
+                    }
+                    _ => {}
+                }
+                match (&lazy_out.add, &t0_map) {
+                    (Err(pm), _) => out.push(Violation::new(t(failed), "panic", format!("add:{}", panic_path(pm)), pm.clone())),
+                    (Ok(Err(_)), _) if failed => st.probe("lazy.err_after_failed_entry_operation"),
+                    (Ok(Err(e)), Some(_)) => out.push(Violation::new("T1", "schedule-dependence", "lazy.add.result", format!("fails on jars that hand out their entries one by one although no entry operation failed: {e:#}"))),
+                    (Ok(Ok(Ok(a))), Some(b)) => {
+                        if failed {
+                            st.probe("lazy.ok_after_failed_entry_operation");
+                        }
+                        if let Some((path, d)) = b.diff_path(a) {
+                            let class = if failed { "reader-ok-with-wrong-data" } else { "schedule-dependence" };
+                            out.push(Violation::new(t(failed), class, format!("lazy.add.{path}"), d));
+                        }
+                    }
+                    (Ok(Ok(Err(e))), Some(_)) => out.push(Violation::new(t(failed), "invalid-output", "lazy.mappings.inconsistent", e.clone())),
+                    _ => {}
+                }
+            }
+        }
         st.obs = obs;
         out
     }
 
     fn shrink(&self, p: &Plan) -> Vec<Plan> {
-        shrink_plan_c15(p)
+        let mut c = vec![];
+        if !p.lazy.is_empty() {
+            let mut q = p.clone();
+            q.lazy.clear();
+            c.push(q);
+            for j in 0..p.lazy.len() {
+                for i in 0..p.lazy[j].fail_at.len() {
+                    let mut q = p.clone();
+                    q.lazy[j].fail_at.remove(i);
+                    c.push(q);
+                }
+            }
+        }
+        c.extend(shrink_plan_c15(p).into_iter().map(|mut q| {
+            // a plan with fewer jars has no use for the per-jar list
+            if q.lazy.len() != q.njars() {
+                q.lazy.clear();
+            }
+            q
+        }));
+        c
     }
     fn size(&self, p: &Plan) -> (u64, u64) {
         let mut ops = (p.calamus.count() + p.mappings.count()) as u64;
@@ -1189,7 +1274,7 @@ impl Engine for C15 {
                 ops += 1 + c.methods.len() as u64 + c.fields.len() as u64;
             }
         }
-        (ops, p.io.iter().map(|io| io.faults.len()).sum::<usize>() as u64 + p.damage.len() as u64)
+        (ops + !p.lazy.is_empty() as u64, p.io.iter().map(|io| io.faults.len()).sum::<usize>() as u64 + p.damage.len() as u64 + p.lazy.iter().map(|l| l.fail_at.len()).sum::<usize>() as u64)
     }
     fn rule(&self) -> String {
         "one run = one main jar + 0-2 library jars of template classes (type universe and 1-4 bridge families of 1-4 levels; classes, interfaces; super types in the main jar, only in a library, or nowhere; 27 bridge / near-miss templates; random class-file layout, stored or deflated, shuffled archive order, non-class entries) x calamus and named mapping sets naming or not naming bridge, delegate and the declarations above them x two insertion orders x one I/O schedule per jar (chunk ceiling, short %, EINTR %) x 0-2 faults (EOF, flipped jar byte, EIO at call / at offset, failing seek, flipped class-file bit aimed at structures the visitor skips or at the super type indices of the header); non-trivial = a short transfer, EINTR or fault fired; distinct by (workload shape digest, I/O event-log digest)".into()
